@@ -30,7 +30,8 @@ def corpus() -> list[dict]:
         m = json.load(open(meta))
         out.append({"name": "seeded/" + os.path.basename(os.path.dirname(meta)), "property": m["property"],
                     "patch": os.path.join(os.path.dirname(meta), "patch.diff"), "base_commit": m.get("base_commit"),
-                    "expect_detected": m.get("expect_detected", True)})
+                    "expect_detected": m.get("expect_detected", True), "tier": m.get("tier"),
+                    "budget": m.get("budget")})
     return out
 
 
@@ -57,8 +58,11 @@ def run_one(entry: dict, tier: str, seed: int, workers: int, runs: int | None) -
         env = dict(os.environ)
         env.pop("GEOSIM_CHILD", None)
         env.update({"GEOMETER_SRC": tmp, "GEOSIM_REPLAY_DIR": os.path.join(tmp, "replays")})
-        cmd = [sys.executable, os.path.join(VERIF, "check.py"), entry["property"], "--tier", tier, "--seed", str(seed),
-               "--no-evidence", "--no-selftest", "--workers", str(workers)]
+        # a change that only the deeper exploration finds says so in its meta.json ("tier": "thorough", "budget": s)
+        cmd = [sys.executable, os.path.join(VERIF, "check.py"), entry["property"], "--tier", entry.get("tier") or tier,
+               "--seed", str(seed), "--no-evidence", "--no-selftest", "--workers", str(workers)]
+        if entry.get("budget"):
+            cmd += ["--budget", str(entry["budget"])]
         if runs:
             cmd += ["--runs", str(runs)]
         p = subprocess.run(cmd, env=env, capture_output=True, text=True, timeout=3600)
